@@ -1,9 +1,213 @@
 import Driver.Util
-open Lean
+import NixModel.Pure.Upgrade
+open Lean Nix.Upgrade
 
 namespace Driver.C18
 
-/-- stub: replaced when the model of C18 is built -/
-def main : IO Unit := pureLoop fun _ => bad "C18: model driver not built yet"
+/-! line protocol (one JSON array per line):
+ * `["history", lib, file, [k₁, k₂, …]]` — invocation `i` (run tag `i`, 1-based) of the upgrade on the
+   file left by invocation `i-1`, interrupted before its `kᵢ`-th step (`null` = not interrupted);
+   answer: per invocation `{"steps": …, "file": …, "err": …}`
+ * `["collect", lib, file]`, `["openrw", lib, file]`, `["view", file]`, `["is_uuid", text]`
+-/
+
+def optStr (j : Json) : Option String := match j with | .str s => some s | _ => none
+
+def parseRat (s : String) : Option Rat :=
+  match s.splitOn "/" with
+  | [n, d] => match n.toInt?, d.toNat? with
+    | some n, some d => if d == 0 then none else some (mkRat n d)
+    | _, _ => none
+  | _ => none
+
+def parseVal (j : Json) : Option Val :=
+  match jArr j |>.toList with
+  | [Json.str "s", Json.str s] => some (.str s)
+  | [Json.str "i", v] => (jInt? v).map .int
+  | [Json.str "f", Json.str s] => (parseRat s).map .flt
+  | [Json.str "b", Json.bool b] => some (.bool b)
+  | _ => none
+
+def field (j : Json) (k : String) : Json := (j.getObjVal? k).toOption.getD Json.null
+
+def parseRow (j : Json) : Option OldRow :=
+  match jArr j |>.toList with
+  | [v, Json.str u, Json.str r, Json.str f, Json.str e, Json.str c] => do
+    let v ← parseVal v
+    let u ← parseRat u
+    pure ⟨v, u, r, f, e, c⟩
+  | _ => none
+
+def parseId (j : Json) : Option Id :=
+  match j with
+  | .str s => some (.orig s)
+  | _ => match (field j "fresh").getNat? with | .ok n => some (.fresh n) | _ => none
+
+def parseStamp (j : Json) : Option Stamp :=
+  match j with
+  | .str s => some (.orig s)
+  | _ => match (field j "now").getNat? with | .ok n => some (.now n) | _ => none
+
+def parsePObj (j : Json) : Option PObj :=
+  let o := field j "old"
+  let n := field j "new"
+  if !isNull o then do
+    let rows ← (jArr (field o "rows")).toList.mapM parseRow
+    pure (.old ⟨jStr (field o "dtype"), rows, optStr (field o "definition"), optStr (field o "unit")⟩)
+  else if !isNull n then do
+    let vals ← (jArr (field n "values")).toList.mapM parseVal
+    let id ← parseId (field n "id")
+    let c ← parseStamp (field n "created")
+    let u ← parseStamp (field n "updated")
+    let unc ← match field n "uncertainty" with
+      | .str s => (parseRat s).map some
+      | _ => some none
+    pure (.new ⟨id, c, u, jStr (field n "dtype"), vals, optStr (field n "definition"),
+                optStr (field n "unit"), unc⟩)
+  else none
+
+def parseProp (j : Json) : Option (Path × PObj) := do
+  let o ← parsePObj j
+  pure ((jArr (field j "path")).toList.map jStr, o)
+
+def parseLink (j : Json) : Option (Option Link) :=
+  if isNull j then some none else do
+    let id ← parseId (field j "id")
+    let c ← parseStamp (field j "created")
+    let u ← parseStamp (field j "updated")
+    let idx ← (jArr (field j "index")).toList.mapM jInt?
+    pure (some ⟨id, c, u, jStr (field j "dot"), idx, jStr (field j "target")⟩)
+
+def parseDim (j : Json) : Option Dim := do
+  let l ← parseLink (field j "link")
+  pure ⟨jStr (field j "name"), jStr (field j "type"), optStr (field j "ticks"), optStr (field j "unit"),
+        optStr (field j "label"), jBool (field j "alias"), l⟩
+
+def parseArr (j : Json) : Option Arr := do
+  let ds ← (jArr (field j "dims")).toList.mapM parseDim
+  pure ⟨jStr (field j "path"), jStr (field j "id"), jStr (field j "data"), optStr (field j "unit"),
+        optStr (field j "label"), ds⟩
+
+def parseNats (j : Json) : Option (List Nat) :=
+  (jArr j).toList.mapM fun x => match x.getNat? with | .ok n => some n | _ => none
+
+def parseFile (j : Json) : Option File := do
+  let ver ← parseNats (field j "version")
+  let ps ← (jArr (field j "props")).toList.mapM parseProp
+  let as ← (jArr (field j "arrays")).toList.mapM parseArr
+  let id : FileId := match field j "id" with
+    | .str s => .text s
+    | x => match (field x "fresh").getNat? with | .ok n => .fresh n | _ => .absent
+  pure ⟨ver, id, ps, as, jStr (field j "other")⟩
+
+/-! output -/
+
+def oStr (o : Option String) : Json := match o with | some s => .str s | none => .null
+def jNat (n : Nat) : Json := Json.num (JsonNumber.fromNat n)
+def jI (i : Int) : Json := Json.num (JsonNumber.fromInt i)
+
+def valJ : Val → Json
+  | .str s => .arr #[.str "s", .str s]
+  | .int i => .arr #[.str "i", jI i]
+  | .flt r => .arr #[.str "f", .str (ratStr r)]
+  | .bool b => .arr #[.str "b", .bool b]
+
+def idJ : Id → Json | .orig s => .str s | .fresh n => Json.mkObj [("fresh", jNat n)]
+def stampJ : Stamp → Json | .orig s => .str s | .now n => Json.mkObj [("now", jNat n)]
+
+def pobjJ (p : Path) : PObj → Json
+  | .old o => Json.mkObj [("path", .arr (p.map Json.str).toArray), ("old", Json.mkObj [
+      ("dtype", .str o.dtype),
+      ("rows", .arr (o.rows.map fun r => Json.arr #[valJ r.value, .str (ratStr r.uncertainty),
+          .str r.reference, .str r.filename, .str r.encoder, .str r.checksum]).toArray),
+      ("definition", oStr o.definition), ("unit", oStr o.unit)])]
+  | .new n => Json.mkObj [("path", .arr (p.map Json.str).toArray), ("new", Json.mkObj [
+      ("id", idJ n.id), ("created", stampJ n.created), ("updated", stampJ n.updated),
+      ("dtype", .str n.dtype), ("values", .arr (n.values.map valJ).toArray),
+      ("definition", oStr n.definition), ("unit", oStr n.unit),
+      ("uncertainty", match n.uncertainty with | some r => .str (ratStr r) | none => .null)])]
+
+def linkJ : Option Link → Json
+  | none => .null
+  | some l => Json.mkObj [("id", idJ l.id), ("created", stampJ l.created), ("updated", stampJ l.updated),
+      ("dot", .str l.dataObjectType), ("index", .arr (l.index.map jI).toArray), ("target", .str l.target)]
+
+def dimJ (d : Dim) : Json :=
+  Json.mkObj [("name", .str d.name), ("type", .str d.dimType), ("ticks", oStr d.ticks), ("unit", oStr d.unit),
+    ("label", oStr d.label), ("alias", .bool d.alias), ("link", linkJ d.link)]
+
+def arrJ (a : Arr) : Json :=
+  Json.mkObj [("path", .str a.path), ("id", .str a.id), ("data", .str a.data), ("unit", oStr a.unit),
+    ("label", oStr a.label), ("dims", .arr (a.dims.map dimJ).toArray)]
+
+def fileJ (f : File) : Json :=
+  Json.mkObj [("version", .arr (f.version.map jNat).toArray),
+    ("id", match f.id with | .absent => .null | .text s => .str s | .fresh n => Json.mkObj [("fresh", jNat n)]),
+    ("props", .arr (f.props.map fun e => pobjJ e.1 e.2).toArray),
+    ("arrays", .arr (f.arrays.map arrJ).toArray), ("other", .str f.other)]
+
+def stepJ : Step → Json
+  | .addId => .arr #[.str "id"]
+  | .prop p => .arr #[.str "prop", .arr (p.map Json.str).toArray]
+  | .dim a d => .arr #[.str "dim", .str a, .str d]
+  | .bump => .arr #[.str "bump"]
+
+def errJ : Option Nix.Err → Json | none => .null | some e => .str e.toString
+
+def history (lib : List Nat) (f : File) (ks : List Json) : Json :=
+  let rec go (run : Nat) (f : File) (ks : List Json) (acc : Array Json) : Array Json :=
+    match ks with
+    | [] => acc
+    | k :: ks =>
+      let steps := collect lib f
+      let r := match k.getNat? with
+        | .ok k => interrupt lib run k f
+        | _ => upgrade lib run f
+      go (run + 1) r.1 ks (acc.push (Json.mkObj [("steps", .arr (steps.map stepJ).toArray),
+        ("file", fileJ r.1), ("err", errJ r.2)]))
+  .arr (go 1 f ks #[])
+
+def viewJ (f : File) : Json :=
+  let ratsJ (o : Option (List Rat)) : Json := match o with
+    | none => .null | some l => .arr (l.map fun r => Json.str (ratStr r)).toArray
+  let strsJ (o : Option (List String)) : Json := match o with
+    | none => .null | some l => .arr (l.map Json.str).toArray
+  Json.mkObj [
+    ("props", .arr (f.props.map fun e =>
+      let v := e.2.view
+      Json.mkObj [("path", .arr (e.1.map Json.str).toArray), ("dtype", .str v.dtype),
+        ("values", .arr (v.values.map valJ).toArray), ("definition", oStr v.definition), ("unit", oStr v.unit),
+        ("uncertainty", ratsJ (extraUnc f.props e.1)),
+        ("reference", strsJ (extraStr f.props e.1 ".reference")),
+        ("filename", strsJ (extraStr f.props e.1 ".filename")),
+        ("encoder", strsJ (extraStr f.props e.1 ".encoder")),
+        ("checksum", strsJ (extraStr f.props e.1 ".checksum"))]).toArray),
+    ("dims", .arr (f.arrays.flatMap fun a => a.dims.map fun d =>
+      let v := readDim a d
+      Json.mkObj [("array", .str a.path), ("name", .str d.name), ("ticks", .str v.ticks),
+        ("unit", oStr v.unit), ("label", oStr v.label)]).toArray)]
+
+def handle (j : Json) : Json :=
+  match jArr j |>.toList with
+  | [Json.str "history", lib, file, ks] =>
+    match parseNats lib, parseFile file with
+    | some lib, some f => ok (history lib f (jArr ks).toList)
+    | _, _ => bad "C18: malformed file"
+  | [Json.str "collect", lib, file] =>
+    match parseNats lib, parseFile file with
+    | some lib, some f => ok (.arr ((collect lib f).map stepJ).toArray)
+    | _, _ => bad "C18: malformed file"
+  | [Json.str "openrw", lib, file] =>
+    match parseNats lib, parseFile file with
+    | some lib, some f => match openRW lib f with | .ok _ => ok .null | .error e => err e
+    | _, _ => bad "C18: malformed file"
+  | [Json.str "view", file] =>
+    match parseFile file with
+    | some f => ok (viewJ f)
+    | none => bad "C18: malformed file"
+  | [Json.str "is_uuid", Json.str s] => ok (.bool (isUuid s))
+  | _ => bad "C18: unknown op"
+
+def main : IO Unit := pureLoop handle
 
 end Driver.C18
